@@ -84,7 +84,7 @@ def cApiOf (j : Json) : P CApi := do
          unions := ← (← jarr j "unions").toList.mapM cUnionOf }
 
 structure CExtTables where
-  pref : Std.HashMap (String × String) Bool := {}
+  intExact : Std.HashMap Int Bool := {}
   strptimeOk : Std.HashMap (String × String) Bool := {}
 
 def cExtTablesOf (j : Json) : P CExtTables := do
@@ -93,10 +93,10 @@ def cExtTablesOf (j : Json) : P CExtTables := do
     | none => pure []
     | some a => (← arrOf a).mapM arrOf
   let mut t : CExtTables := {}
-  for r in ← rows "prefix" do
+  for r in ← rows "intExact" do
     match r with
-    | [a, b, c] => t := { t with pref := t.pref.insert (← strOf a, ← strOf b) (← boolOf c) }
-    | _ => throw "prefix row"
+    | [a, b] => t := { t with intExact := t.intExact.insert (← intOf' a) (← boolOf b) }
+    | _ => throw "intExact row"
   for r in ← rows "strptimeOk" do
     match r with
     | [a, b, c] => t := { t with strptimeOk := t.strptimeOk.insert (← strOf a, ← strOf b) (← boolOf c) }
@@ -105,7 +105,7 @@ def cExtTablesOf (j : Json) : P CExtTables := do
 
 /-- `alt` selects which of two different answers a table miss gets -/
 def mkCExt (t : CExtTables) (alt : Bool) : CExt where
-  prefixMatch p s := (t.pref[(p, s)]?).getD alt
+  intExact n := (t.intExact[n]?).getD alt
   strptimeOk f s := (t.strptimeOk[(f, s)]?).getD alt
 
 /-- evaluate under both miss policies of both table sets -/
